@@ -1,5 +1,6 @@
 import Goyang.Lemmas.PositionsSem
 import Goyang.Model.Pipeline
+import Goyang.Lemmas.Types
 /-
 Semantic half of C16: the layers plugged into `processAll` by `Goyang.Model.plugFull` — type
 resolution (`Goyang.Model.Types`), typedef resolution and identity resolution
@@ -380,11 +381,12 @@ theorem stepPosix_good (env : Types.Env) {t : Stmt} (ht : StmtOf env.reg t) (pps
 theorem stepMembers_good (members : List Res) (hm : ∀ r ∈ members, GoodL reg r.errs) (s : St) (hs : GoodL reg s.2) :
     GoodL reg (stepMembers members s).2 := by
   unfold stepMembers
-  refine goodL_append hs ?_
   intro x hx
-  simp only [List.mem_flatMap] at hx
-  obtain ⟨r, hr, hxr⟩ := hx
-  exact hm r hr x hxr
+  rcases (Goyang.Lemmas.Types.mem_appendNewErrs x _ _).mp hx with h | h
+  · exact hs x h
+  · simp only [List.mem_flatMap] at h
+    obtain ⟨r, hr, hxr⟩ := h
+    exact hm r hr x hxr
 
 theorem overlayType_good (env : Types.Env) {root : Mod} (hroot : root ∈ env.reg.mods) {t : Stmt} (ht : StmtOf env.reg t)
     (hkw : t.kw = "type") (source : Source) (tdY : YType) (members : List Res)
